@@ -48,6 +48,10 @@ register("C10", "exploration", "E1 explore", "bounded exhaustive enumeration of 
          "Every archive of the shared enumerations is opened by path; getnames/namelist/list/files, sizes, CRCs, getinfo (with and without trailing slash, absent names), archiveinfo (total, blocks, solid, method names, size) and needs_password are compared with the bytes both readers agree on and with the folder/coder structure seen by ref7z.",
          "Archives on which py7zr's extraction and ref7z disagree are counted and left to C06/C08 (the listing question is undefined there).", "DESIGN.md section 5 C10")
 
+register("C12", "model_checking", "E3 bfs", "explicit-state breadth-first search over call histories on the real object (state = replayed history, canonical-state dedup, dedup-off cross-check)",
+         "All call histories of length <= 4 (thorough 6) in the property's language over 12 calls, on 4 intact and 3 damaged archives x path/BytesIO/file object, each replayed on a fresh SevenZipFile under three endings; oracle = differential against the freshly opened archive, verdict correctness on damaged copies, SHA-256 of the archive, watchdog. The property quantifies over histories, so an exhaustive search of the bounded language is the matching level.",
+         "State merging relies on the census of mutable session fields (checked against vars() at run time; unknown attribute => dedup off); one configuration is additionally explored with dedup off as a cross-check.", "DESIGN.md section 5 C12")
+
 NOT_YET = {}
 
 
